@@ -351,20 +351,20 @@ def annotations_harness(a, kind):
         snapshot = deep_clone(ann)
 
         def witness(model):
-            if kind not in ('instance', 'parametric_instance'):
-                return None, None, f'{ANN[kind]} after setting {seq}'
             sets = []
             exp = {}
             for f, nat in native_sets:
                 if f in ('variables', 'constraints'):
                     nat = model.eval(nat, model_completion=True).as_long()
-                elif f == 'created':
+                elif f in ('created', 'start', 'end'):
                     secs = model.eval(nat.f[0], model_completion=True).as_long() % 4102444800
                     import datetime
                     nat = datetime.datetime.fromtimestamp(secs, datetime.timezone.utc).strftime('%Y-%m-%dT%H:%M:%S') + '.000000001+09:00'
                     exp_created = (secs - 9 * 3600) * 10 ** 9 + 1
+                elif f in ('instance', 'solver'):
+                    nat = 'sha256:' + '%064x' % model.eval(nat.bv, model_completion=True).as_long()
                 sets.append([f, nat])
-                exp[f] = nat if f != 'created' else exp_created
+                exp[f] = nat if f not in ('created', 'start', 'end') else exp_created
             if other:
                 sets.append(['other', ['org.ommx.user.note', 'n']])
             case = {'op': 'annotations', 'type': kind, 'set': sets}
